@@ -361,7 +361,7 @@ func (e *Engine) resliced(st *State, b SliceV, lo, hi, mx *Term, pos token.Pos, 
 	if b.Obj != 0 && explicitHi {
 		// capacity monitor: reslicing the caller's packet buffer beyond its visible length
 		if o := st.obj(b.Obj); o.limit != nil {
-			e.oblige(st, tb.Cmp("bvule", tb.Bin("bvadd", b.Off, hi), o.limit), "reslice-beyond-length", pos, txt)
+			e.monitor(st, tb.Cmp("bvule", tb.Bin("bvadd", b.Off, hi), o.limit), "reslice-beyond-length", pos, txt)
 		}
 	}
 	return SliceV{Obj: b.Obj, Base: b.Base, Off: tb.Bin("bvadd", b.Off, lo), Len: tb.Bin("bvsub", hi, lo), Cap: tb.Bin("bvsub", mx, lo)}
